@@ -1,0 +1,31 @@
+//go:build verif
+
+package swap
+
+import (
+	"math/big"
+
+	"github.com/MinterTeam/minter-go-node/coreV2/state/bus"
+	"github.com/MinterTeam/minter-go-node/coreV2/state/checker"
+	"github.com/MinterTeam/minter-go-node/coreV2/types"
+	"github.com/cosmos/iavl"
+)
+
+// Verification hooks (build tag `verif`): expose the pure pool arithmetic for differential testing.
+
+// VerifNewPair returns a stand-alone pair (coins 1 and 2, empty order book) with the given reserves.
+func VerifNewPair(tree *iavl.ImmutableTree, r0, r1 *big.Int) *PairV2 {
+	b := bus.NewBus()
+	checker.NewChecker(b)
+	s := NewV2(b, tree)
+	p := s.ReturnPair(types.CoinID(1), types.CoinID(2))
+	*p.ID = 1
+	p.Reserve0.Set(r0)
+	p.Reserve1.Set(r1)
+	return p
+}
+
+func VerifCom1000(x *big.Int) *big.Int           { return calcCommission1000(x) }
+func VerifCom1001(x *big.Int) *big.Int           { return calcCommission1001(x) }
+func VerifCom0999(x *big.Int) *big.Int           { return calcCommission0999(x) }
+func VerifStartingSupply(a, b *big.Int) *big.Int { return startingSupply(a, b) }
